@@ -847,6 +847,14 @@ pub fn run(ctx: &Ctx) -> Report {
     let xs = crate::expect::run_expect(ctx, &ctx.runner_checked, across.into_iter(), &|_e, _r| None, &|_e, _p| None);
     report.cov("programs_sequences_on_one_interpreter", json!(n_across));
     report.violations.extend(xs.violations);
+    // a program compiled once for a module of the embedding's choosing and executed again and again
+    {
+        let kept = crate::c15::kept_program_histories();
+        let n_kept = kept.len();
+        let ks = crate::expect::run_expect(ctx, &ctx.runner_checked, kept.into_iter(), &|_e, _r| None, &|_e, _p| None);
+        report.cov("kept_program_runs_in_its_module", json!(n_kept));
+        report.violations.extend(ks.violations);
+    }
     report.assumptions = vec!["a module whose top-level code did not run to its end is not loaded: a later import of the same path runs the code again (DESIGN 11.3, KF-C14-F3)".into()];
     record_known(&mut report, &active, &stats.attributed);
     report.violations.extend(stats.violations);
